@@ -98,7 +98,9 @@ def prepare(cases, variants=None):
             continue
         seen.add(h)
         for var in (variants if variants is not None else [int(h, 16) % 4]):
-            d = {"mode": c["mode"], "steps": c["steps"], "key": h, "repl": var % 2, "shared_ctx": var // 2}
+            # xreal: XQuery / Build steps run in really fresh processes (a sample; the others use a fresh path alias)
+            d = {"mode": c["mode"], "steps": c["steps"], "key": h, "repl": var % 2, "shared_ctx": var // 2,
+                 "xreal": 1 if int(h, 16) % 16 == 5 else 0}
             out.append(d)
     return out
 
@@ -111,28 +113,29 @@ def concrete(case):
             steps.append({"a": "write", "p": s["p"], "v": s["v"], "len": s["len"], "sec": s["sec"], "ns": s["ns"]})
         else:
             steps.append({"a": s["a"], "p": s["p"]})
-    return {"key": case["key"], "mode": case["mode"], "repl": case["repl"], "shared_ctx": case["shared_ctx"],
+    return {"key": case["key"], "mode": case["mode"], "repl": case["repl"], "shared_ctx": case["shared_ctx"], "xreal": case.get("xreal", 0),
             "versions": VERSIONS, "steps": steps, "npre": len(paths)}
 
 
 def run_harness(ctx, cases, tag, keep=False):
-    """one engine process per mode; returns observations aligned with `cases`"""
+    """one engine process per mode (started together); returns observations aligned with `cases`"""
+    from concurrent.futures import ThreadPoolExecutor
     obs = [None] * len(cases)
-    for mode in sorted({c["mode"] for c in cases}):
-        idx = [i for i, c in enumerate(cases) if c["mode"] == mode]
-        inp = os.path.join(ctx.work, f"{tag}.m{mode}.in.ndjson")
-        outp = os.path.join(ctx.work, f"{tag}.m{mode}.out.ndjson")
+    old = os.environ.pop("QE_IPC_CACHE", None)
+
+    def one(job):
+        mode, part, nparts = job
+        idx = [i for i, c in enumerate(cases) if c["mode"] == mode][part::nparts]
+        if not idx:
+            return
+        inp = os.path.join(ctx.work, f"{tag}.m{mode}.{part}.in.ndjson")
+        outp = os.path.join(ctx.work, f"{tag}.m{mode}.{part}.out.ndjson")
         write_ndjson(inp, [concrete(cases[i]) for i in idx])
         env = {"RAYON_NUM_THREADS": "4"}
         if MODE_ENV[mode] is not None:
             env["QE_IPC_CACHE"] = MODE_ENV[mode]
-        args = ["cache-replay", inp, outp, os.path.join(ctx.work, "files"), "6"] + (["keep"] if keep else [])
-        old = os.environ.pop("QE_IPC_CACHE", None)
-        try:
-            p = qev(args, timeout=3000, env=env, check=False)
-        finally:
-            if old is not None:
-                os.environ["QE_IPC_CACHE"] = old
+        args = ["cache-replay", inp, outp, os.path.join(ctx.work, "files"), "4"] + (["keep"] if keep else [])
+        p = qev(args, timeout=3000, env=env, check=False)
         if p.returncode != 0:
             vlib.log(p.stderr[-3000:])
             raise vlib.ToolError(f"cache-replay exited {p.returncode} in mode {mode} (materialiser problem, not a verdict)")
@@ -141,6 +144,16 @@ def run_harness(ctx, cases, tag, keep=False):
             raise vlib.ToolError("cache-replay lost histories")
         for i, o in zip(idx, outs):
             obs[i] = o["obs"][o["npre"]:]
+
+    try:
+        # in-process sidecar builds are serialised by the engine's BUILD_LOCK: mode 1 is spread over three processes
+        jobs = [(m, part, n) for m in sorted({c["mode"] for c in cases}) for n in [3 if m == 1 else 1] for part in range(n)]
+        with ThreadPoolExecutor(max_workers=len(jobs)) as ex:
+            for f in [ex.submit(one, j) for j in jobs]:
+                f.result()
+    finally:
+        if old is not None:
+            os.environ["QE_IPC_CACHE"] = old
     return obs
 
 
@@ -153,7 +166,10 @@ def judge_history(case, obs):
     out = []
     if len(obs) != len(case["steps"]):
         raise vlib.ToolError("harness returned a different number of steps")
+    stamp = {}
     for i, (s, o) in enumerate(zip(case["steps"], obs)):
+        if s["a"] == "write":
+            stamp[s["p"]] = "v2:%d:%d" % (o["len"], BASE_SEC + s["sec"])
         if s["a"] not in ("query", "xquery"):
             continue
         pred = s["pred"]
@@ -166,8 +182,15 @@ def judge_history(case, obs):
             if fresh:
                 out.append((i, kind, "drift" if pred["stale"][k] == 1 else "ok", got))
                 continue
+            sc = o.get("sidecar")
             if pred["ss"] == 1 and pred["scv"] == 0:
-                fid = F_POISON
+                # the model says a sidecar was built through a stale footer entry; on disk that is a sidecar carrying the
+                # CURRENT stamp (the first write of a path has model sec 0 and length class 0)
+                cur = stamp.get(s["p"], "v2:%d:%d" % (case.get("len0", 0), BASE_SEC))
+                if sc is not None and (sc["stamp"] == cur or s["p"] not in stamp):
+                    fid = F_POISON
+                else:
+                    fid = F_FOOTER if pred["fs"] == 1 else None      # the build failed instead: plain stale footer, or unexplained
             elif pred["ss"] == 1:
                 fid = F_SIDECAR
             elif pred["fs"] == 1:
@@ -306,83 +329,101 @@ def cex_len(res):
     return len(re.findall(r"^State \d+:", res.out, re.M))
 
 
-def model_runs(ctx, quick):
-    # ideal keys: Fresh is an invariant
-    res = run_tlc("CacheCoherence", "CacheCoherence_quick.cfg" if quick else "CacheCoherence_thorough.cfg", workers=8, timeout=3000, coverage=not quick)
-    tlc_must_pass(res, "CacheCoherence ideal keys")
-    ctx.tlc_stats(res, "CacheCoherence, ideal keys (len, mtime_ns, change generation): Fresh/DictFresh/ModeRespected hold in every reachable state")
+def tlc_jobs(ctx, quick):
+    """all TLC runs of the tier, started together (they are independent); returns results by name"""
+    from concurrent.futures import ThreadPoolExecutor
+    jobs = {
+        "ideal": lambda: run_tlc("CacheCoherence", "CacheCoherence_quick.cfg" if quick else "CacheCoherence_thorough.cfg", workers=4 if quick else 8,
+                                 timeout=3000, coverage=not quick, tag="C19-ideal"),
+        "FooterFresh": lambda: run_tlc("CacheCoherence", "CacheCoherence_asbuilt_footer.cfg", workers=1, timeout=1500, tag="C19-fo"),
+        "SidecarFresh": lambda: run_tlc("CacheCoherence", "CacheCoherence_asbuilt_sidecar.cfg", workers=1, timeout=1500, tag="C19-sc"),
+        "gen": lambda: run_tlc("CacheCoherence", "CacheCoherence_gen_quick.cfg" if quick else "CacheCoherence_gen_thorough.cfg", workers=4 if quick else 8,
+                               timeout=3000, tag="C19-gen"),
+        "sim": lambda: run_tlc("CacheCoherence", "CacheCoherence_sim.cfg", workers=1, timeout=3000, simulate=100 if quick else 3000, depth=12,
+                               seed=ctx.seed, tag="C19-sim"),
+    }
     if not quick:
-        zero = [a for a in ("Write", "Query", "XQuery", "Build") if res.coverage.get(a, 0) == 0]
+        jobs["deep"] = lambda: run_tlc("CacheCoherence", "CacheCoherence_thorough_deep.cfg", workers=8, timeout=3000, tag="C19-deep")
+        for km in (2, 3, 4, 5):
+            cfg = write_cfg(ctx, f"mut{km}.cfg", paths="{1}", n=5, km=km, vstep="{1, 2}", invs=["Fresh"])
+            jobs[f"mut{km}"] = (lambda cfg=cfg, km=km: run_tlc("CacheCoherence", cfg, workers=1, timeout=1500, tag=f"C19-mut{km}"))
+    with ThreadPoolExecutor(max_workers=len(jobs)) as ex:
+        futs = {k: ex.submit(f) for k, f in jobs.items()}
+        return {k: f.result() for k, f in futs.items()}
+
+
+def model_results(ctx, res, quick):
+    r = res["ideal"]
+    tlc_must_pass(r, "CacheCoherence ideal keys")
+    ctx.tlc_stats(r, "CacheCoherence, ideal keys (len, mtime_ns, change generation): Fresh/DictFresh/ModeRespected hold in every reachable state")
+    if not quick:
+        zero = [a for a in ("Write", "Query", "XQuery", "Build") if r.coverage.get(a, 0) == 0]
         if zero:
             raise vlib.ToolError(f"TLC coverage: actions never taken: {zero}")
+        tlc_must_pass(res["deep"], "CacheCoherence ideal keys, deep")
+        ctx.tlc_stats(res["deep"], "CacheCoherence, ideal keys, one path, 9 steps")
     # as-built keys: both refutations must be found
     model = {}
-    for inv, cfg in (("FooterFresh", "CacheCoherence_asbuilt_footer.cfg"), ("SidecarFresh", "CacheCoherence_asbuilt_sidecar.cfg")):
-        r = run_tlc("CacheCoherence", cfg, workers=1, timeout=1500)
+    for inv in ("FooterFresh", "SidecarFresh"):
+        r = res[inv]
         if r.error:
-            tlc_must_pass(r, cfg)
+            tlc_must_pass(r, inv)
         ctx.tlc_stats(r, f"CacheCoherence, as-built keys: shortest counterexample to {inv}")
         if r.violated != inv:
             raise vlib.ToolError(f"the as-built key model no longer refutes {inv} (spec and code keys diverged?)")
         model[inv] = cex_len(r) - 1
     ctx.set("asbuilt_counterexample_steps", model)
-    # mutant key models (2..5) are refuted as well — the invariant distinguishes key designs
     if not quick:
         for km in (2, 3, 4, 5):
-            cfg = write_cfg(ctx, f"mut{km}.cfg", paths="{1}", n=5, km=km, vstep="{1, 2}", invs=["Fresh"])
-            r = run_tlc("CacheCoherence", cfg, workers=1, timeout=1500)
+            r = res[f"mut{km}"]
             if r.violated != "Fresh":
                 raise vlib.ToolError(f"key model {km} is not refuted by Fresh")
             ctx.tlc_stats(r, f"CacheCoherence, mutant key model {km}: refuted")
-
-
-def gen_cases(ctx, quick):
-    res = run_tlc("CacheCoherence", "CacheCoherence_gen_quick.cfg" if quick else "CacheCoherence_gen_thorough.cfg", workers=8, timeout=3000)
-    tlc_must_pass(res, "CacheCoherence generator")
-    ctx.tlc_stats(res, "CacheCoherence, as-built keys: every history in the bound emitted with the predicted stale flags per query")
-    return res.cases
-
-
-def sim_cases(ctx, quick):
-    sim = run_tlc("CacheCoherence", "CacheCoherence_sim.cfg", workers=1, timeout=3000, simulate=150 if quick else 3000, depth=12, seed=ctx.seed)
+    r = res["gen"]
+    tlc_must_pass(r, "CacheCoherence generator")
+    ctx.tlc_stats(r, "CacheCoherence, as-built keys: every history in the bound emitted with the predicted stale flags per query")
+    sim = res["sim"]
     if sim.error or sim.violated:
         tlc_must_pass(sim, "CacheCoherence/simulate")
     m = re.search(r"The number of states generated: (\d+)", sim.out)
     sim.generated = int(m.group(1)) if m else 0
     sim.distinct = len({hist_key(c) for c in sim.cases})
     ctx.tlc_stats(sim, "CacheCoherence -simulate: random histories of 8 steps over 2 paths (as-built keys), one CASE per walk")
-    return sim.cases
+    return r.cases, sim.cases
 
 
 # --------------------------------------------------------------------------------------------
 
 def run(ctx):
     quick = ctx.tier == "quick"
-    model_runs(ctx, quick)
+    gen, simc = model_results(ctx, tlc_jobs(ctx, quick), quick)
     stats = new_stats()
-    ex = prepare(gen_cases(ctx, quick), variants=None if quick else None)
+    ex = prepare(gen)
     seen = {c["key"] for c in ex}
-    sm = [c for c in prepare(sim_cases(ctx, quick)) if c["key"] not in seen]
-    if len(ex) < 1000 or len(sm) < 50:
+    sm = [c for c in prepare(simc) if c["key"] not in seen]
+    if len(ex) < 1000 or len(sm) < 40:
         raise vlib.ToolError(f"too few histories emitted ({len(ex)} exhaustive, {len(sm)} simulated)")
     # all four concretisation variants (rename / in place x fresh / long-lived context) for the histories with a finding shape
     # or, in thorough, for everything of the exhaustive family
     allc = ex + sm
-    obs = run_harness(ctx, allc, "cases")
-    account(ctx, allc, obs, stats)
+    # the histories with a finding shape (and a sample of the others) also run under the opposite concretisation
+    # (rename <-> in place, fresh <-> long-lived context); thorough: all three other variants for every history
     extra = []
     for c in ex:
-        if quick and not any(s["a"] in ("query", "xquery") and (s["pred"]["fs"] or s["pred"]["ss"]) for s in c["steps"]):
-            if int(c["key"], 16) % 8 != 0:
-                continue
+        flagged = any(s["a"] in ("query", "xquery") and (s["pred"]["fs"] or s["pred"]["ss"]) for s in c["steps"])
         var0 = c["repl"] + 2 * c["shared_ctx"]
-        for var in range(4):
-            if var != var0:
-                d = dict(c)
-                d["repl"], d["shared_ctx"] = var % 2, var // 2
-                extra.append(d)
-    obs2 = run_harness(ctx, extra, "variants")
-    account(ctx, extra, obs2, stats)
+        if quick:
+            if flagged and int(c["key"], 16) % 3 != 0 or not flagged and int(c["key"], 16) % 8 != 0:
+                continue
+            others = [3 - var0]
+        else:
+            others = [v for v in range(4) if v != var0] if flagged or int(c["key"], 16) % 4 == 0 else [3 - var0]
+        for var in others:
+            d = dict(c)
+            d["repl"], d["shared_ctx"] = var % 2, var // 2
+            extra.append(d)
+    obs = run_harness(ctx, allc + extra, "cases")
+    account(ctx, allc + extra, obs, stats)
     vacuity(stats)
     shutil.rmtree(os.path.join(ctx.work, "files"), ignore_errors=True)
 
